@@ -2,7 +2,7 @@ import OSModel.Scalar
 /-
   `Scalar Float`: what the driver executes.
   Φ(x) = ½·erfc(−x/√2) with an erfc that keeps *relative* accuracy in the tail
-  (positive-term series below 2, continued fraction above); Φ⁻¹ by bisection + Newton on
+  (positive-term series below 1, continued fraction above); Φ⁻¹ by bisection + Newton on
   that Φ (independent of CPython's AS241 tables).
 -/
 namespace OS
@@ -11,7 +11,7 @@ def sqrtPi : Float := 1.7724538509055160272981674833411451827975494561224
 def sqrt2 : Float := 1.4142135623730950488016887242096980785696718753769
 def sqrt2Pi : Float := 2.5066282746310005024157652848110452530069867406099
 
-/-- erf(z) for 0 ≤ z < 2.5: 2/√π · e^{−z²} · Σ 2ⁿ z^{2n+1}/(2n+1)!!  (all terms positive) -/
+/-- erf(z) for 0 ≤ z < 1: 2/√π · e^{−z²} · Σ 2ⁿ z^{2n+1}/(2n+1)!!  (all terms positive) -/
 def erfSeries (z : Float) : Float := Id.run do
   let z2 := z * z
   let mut term := z
@@ -21,7 +21,7 @@ def erfSeries (z : Float) : Float := Id.run do
     sum := sum + term
   return 2.0 / sqrtPi * Float.exp (-z2) * sum
 
-/-- erfc(z) for z ≥ 2: e^{−z²}/√π · 1/(z + (1/2)/(z + 1/(z + (3/2)/(z + …)))) -/
+/-- erfc(z) for z ≥ 1 (depth 200: truncation error ≈ exp(−2z√400) ≤ 4e-18): e^{−z²}/√π · 1/(z + (1/2)/(z + 1/(z + (3/2)/(z + …)))) -/
 def erfcCF (z : Float) : Float := Id.run do
   let mut f := z
   for i in [0:200] do
@@ -32,9 +32,9 @@ def erfcCF (z : Float) : Float := Id.run do
 def erfcF (z : Float) : Float :=
   if z < 0.0 then
     let a := -z
-    if a < 2.0 then 1.0 + erfSeries a else 2.0 - erfcCF a
+    if a < 1.0 then 1.0 + erfSeries a else 2.0 - erfcCF a
   else
-    if z < 2.0 then 1.0 - erfSeries z else erfcCF z
+    if z < 1.0 then 1.0 - erfSeries z else erfcCF z
 
 def PhiF (x : Float) : Float := 0.5 * erfcF (-x / sqrt2)
 
